@@ -1026,11 +1026,16 @@ func (g *c03Gen) body(depth int, ext bool) *val {
 		}
 		return g.single(typ, pick(r, []string{"plain", "html", "PLAIN", "", g.str()}), vNil(), text, extHere)
 	default: // leaf
-		typ := pick(r, []string{"application", "image", "audio", "APPLICATION", "x-unknown", "", "messages", "texts", g.str()})
+		typ := pick(r, []string{"application", "image", "audio", "APPLICATION", "x-unknown", "", "messages", "texts", "messagex", "message/rfc822", g.str()})
 		if strings.EqualFold(typ, "text") {
 			typ = "textual"
 		}
-		sub := pick(r, []string{"octet-stream", "png", "pdf", "rfc822", "", g.str()})
+		sub := pick(r, []string{"octet-stream", "png", "pdf", "rfc822", "global", "y", "", g.str()})
+		if r.chance(1, 3) {
+			// a message/* part that is NOT an embedded message: a plain leaf (only rfc822 and global carry envelope + body)
+			typ = c03CaseVariant(r, "message")
+			sub = pick(r, []string{"delivery-status", "disposition-notification", "partial", "external-body", "Delivery-Status", "rfc822x", "rfc82", "globals", "feedback-report", ""})
+		}
 		if strings.EqualFold(typ, "message") && (strings.EqualFold(sub, "rfc822") || strings.EqualFold(sub, "global")) {
 			sub = "partial"
 		}
